@@ -96,6 +96,7 @@ type Explorer struct {
 	pools     map[*value]*pool
 	builders  map[*value]string
 	env       map[string]value
+	onces     map[*value]bool
 	interp    *interpreter
 	steps     int
 	violated  bool
